@@ -144,12 +144,24 @@ class Renderer:
         decl.append(f"    s.{base} = {e}")
       else:
         decl.append(f"    s.{n} = {ctor}")
-    names_all = [n for n, d, t in c["ports"]] + [n for n, t in c["wires"]]
+    names_all = [n for n, d, t in c["ports"] if "." not in n] + [n for n, t in c["wires"]]
     for n, d, t in c["ports"]:
+      if "." in n: continue                       # member of an interface instance, declared by the interface class
       declare(n, f"{'InPort' if d == 'in' else 'OutPort'}( {self.tname(t)} )")
+    for attr, iname in c.get("ifc_insts", []):
+      decl.append(f"    s.{attr} = {iname}_{tag}()")
     for n, t in c["wires"]:
       declare(n, f"Wire( {self.tname(t)} )")
     for iname, ccn in c["children"]:
+      if "[" in iname:                              # element of a list of components: declared once, at element 0
+        base, i = iname[:-1].split("[")
+        if i == "0":
+          elems = sorted((int(x[:-1].split("[")[1]), y) for x, y in c["children"] if x.startswith(base + "["))
+          if len({y for _, y in elems}) == 1:
+            decl.append(f"    s.{base} = [ {ccn}_{tag}() for _ in range({len(elems)}) ]")
+          else:                                     # elements of different classes (C15: one element replaced)
+            decl.append(f"    s.{base} = [ " + ", ".join(f"{y}_{tag}()" for _, y in elems) + " ]")
+        continue
       decl.append(f"    s.{iname} = {ccn}_{tag}()")
     decl.extend("    " + l for l in c.get("raw_decl", []))
     L.extend(decl)
@@ -200,7 +212,17 @@ class Renderer:
       order.append(cn)
     visit(self.d["top"])
     cls_src = [self.cls(cn, self.d["classes"][cn], tag) for cn in order]
-    return "from pymtl3 import *\n\n" + "\n".join(self.struct_src) + "\n" + "\n".join(cls_src)
+    ifc_src = self.ifc_source(tag)
+    return "from pymtl3 import *\n\n" + "\n".join(self.struct_src) + "\n" + "\n".join(ifc_src) + "\n" + "\n".join(cls_src)
+
+  def ifc_source(self, tag):
+    ifc_src = []
+    for iname, members in sorted(self.d.get("ifcs", {}).items()):
+      L = [f"class {iname}_{tag}( Interface ):", "  def construct( s ):"]
+      for mn, md, mt in members:
+        L.append(f"    s.{mn} = {'InPort' if md == 'in' else 'OutPort'}( {self.tname(mt)} )")
+      ifc_src.append("\n".join(L) + "\n")
+    return ifc_src
 
 
 def load_design(design, variant=None, scratch=None, tag=None, modname=None):
